@@ -722,7 +722,7 @@ func (g *Gen) evalCall(n *Node, env *Env) (Term, error) {
 		if err != nil {
 			return Term{}, err
 		}
-		q := "q!" + args[0].Val
+		q := freshBound(env, args[0].Val)
 		e2 := env.clone()
 		e2.names[args[0].Val] = Term{S: q, Sort: "Int", T: types.Typ[types.Int]}
 		p, err := g.evalBool(args[3], e2)
@@ -761,7 +761,7 @@ func (g *Gen) evalCall(n *Node, env *Env) (Term, error) {
 			return Term{}, fmt.Errorf("%s(x, P)", name)
 		}
 		srt := map[byte]string{'I': "Int", 'S': "Str", 'B': "Bool"}[name[len(name)-1]]
-		q := "q!" + args[0].Val
+		q := freshBound(env, args[0].Val)
 		e2 := env.clone()
 		e2.names[args[0].Val] = Term{S: q, Sort: srt}
 		p, err := g.evalBool(args[1], e2)
@@ -1186,6 +1186,28 @@ func triggersFor(body, q string) string {
 func isUnbound(err error) bool {
 	m := err.Error()
 	return strings.Contains(m, "unbound name") || strings.Contains(m, "no call to")
+}
+
+// freshBound picks the SMT name of a bound variable so that it does not capture a bound variable already
+// mentioned by a term in scope (spec functions with quantified bodies are inlined under the caller's quantifiers).
+func freshBound(env *Env, name string) string {
+	q := "q!" + name
+	for n := 0; ; n++ {
+		c := q
+		if n > 0 {
+			c = fmt.Sprintf("%s_%d", q, n)
+		}
+		clash := false
+		for _, t := range env.names {
+			if strings.Contains(t.S, c) {
+				clash = true
+				break
+			}
+		}
+		if !clash {
+			return c
+		}
+	}
 }
 
 func nodeHasQuant(n *Node) bool {
